@@ -164,9 +164,12 @@ CLAIMED = {
              "(raise_changes_nothing) and every node of a new trie is old or just saved (new_nodes_saved). The raw-level transcription "
              "of _set over node hashes and the database (Model/BinRaw.lean, itself run against the code) returns the hash of the "
              "tree-level result, saves exactly the listed nodes in order and raises exactly when the tree level does "
-             "(Raw.bin_set_refines, bin_set_blank). That the kv/branch/leaf "
+             "(Raw.bin_set_refines, bin_set_blank); threaded over whole histories of accepted calls it returns the root of the "
+             "tree-level history and a database storing that whole tree, and BinaryTrie.get over that database returns the map "
+             "model's value (Raw.bin_history, bin_history_tree, bin_history_get). That the kv/branch/leaf "
              "byte encoding is the specified one is pinned by the independent canonical encoder of the harness and C16. Tie: outcome, "
-             "root, exact database, get/exists after every call; old roots re-read through the Lean Layer-D reader.",
+             "root, exact database, get/exists after every call; old roots re-read through the Lean Layer-D reader; the raw-level run "
+             "on its own root and database alongside every history (root per call, database, lookups).",
         technique="Lean 4 proof (case-for-case tree model, canonical-form uniqueness) + correspondence check",
         design_ref="6/C12"),
     "C16": dict(
